@@ -569,6 +569,30 @@ func (w *World) trSpecCall(e *SExpr, env *SpecEnv) *Val {
 		rs, gt := w.resolveSpecType(sf.Pkg, sf.Ret)
 		return tv(mk(specFuncSMTName(sf), rs, ts...), gt)
 	}
+	// method of a dependency's type on an opaque value (r.IsArray(), r.Exists()): the same deterministic uninterpreted
+	// function of receiver and arguments that the executor uses for such calls (callExtern)
+	if len(args) >= 1 {
+		recv := w.trSpec(args[0], env)
+		if recv.GoT != nil && isExternalNamed(recv.GoT) {
+			ms := types.NewMethodSet(recv.GoT)
+			for i := 0; i < ms.Len(); i++ {
+				m, ok := ms.At(i).Obj().(*types.Func)
+				if !ok || m.Name() != name {
+					continue
+				}
+				sig := m.Type().(*types.Signature)
+				if sig.Results().Len() != 1 {
+					break
+				}
+				ts := []*Term{recv.T}
+				for _, a := range args[1:] {
+					ts = append(ts, w.trSpec(a, env).T)
+				}
+				rt := sig.Results().At(0).Type()
+				return tv(mk("ext_"+sanitize(externKey(m)), w.sortOf(rt), ts...), rt)
+			}
+		}
+	}
 	panic(fmt.Sprintf("spec: unknown function %q in %s", name, e.String()))
 }
 
